@@ -228,7 +228,7 @@ class Impl(object):
 
     def on_pop(self, item, heap):
         self.pops += 1
-        if self.pops > 5000:
+        if self.pops > 400:
             raise RuntimeError('run() does not terminate')
         t, name = item[0], item[1]
         self.picks.append(name)
@@ -240,8 +240,8 @@ class Impl(object):
         if reg.t != t or canon_args(item[2], item[3]) != reg.args:
             self.fail('run() fired %r with due time/arguments (%r, %r), registered with (%r, %r)'
                       % (name, t, canon_args(item[2], item[3]), reg.t, reg.args))
-        if not (t < now):
-            self.fail('event %r fired at %d, before its due time %d has passed' % (name, now, t))
+        if now < t:
+            self.fail('event %r fired at %d, before its due time %d' % (name, now, t))
         others = [r.t for r in self.regs.values()]
         if others and min(others) < t:
             self.fail('event %r (due %d) fired while an event due earlier (%d) is scheduled' % (name, t, min(others)))
@@ -491,7 +491,7 @@ def run_case(P, ops, kind):
              tags=tuple(sorted(im.tags)), kind=kind)
     return c, lines
 
-def explore(stream, n, maxlen, corpus=()):
+def explore(stream, n, maxlen, corpus=(), budget=75.0):
     r = rng.make(stream)
     cases = []; lines = []; spans = []
     def add(P, ops, kind):
@@ -500,9 +500,16 @@ def explore(stream, n, maxlen, corpus=()):
         lines.extend(ml); cases.append(c)
     for P, ops in corpus:
         add(P, ops, 'corpus')
+    t0 = time.time()
+    bad = 0
     for _ in range(n):
         P = gen_prog(r)
         add(P, gen_ops(r, P, maxlen), 'gen')
+        if cases[-1].oracle_ok is False:
+            bad += 1
+        # a broken scheduler can make every case slow: a few failing inputs are enough
+        if bad >= 25 or time.time() - t0 > budget:
+            break
     return cases, lines, spans
 
 def fill_model(cases, lines, spans):
@@ -577,7 +584,7 @@ def shrink_case(c):
 def run(ctx):
     build = leanbuild.ensure(PROPERTY, THEOREMS, thorough=ctx.thorough, extractors=[])
     n, maxlen = (80000, 60) if ctx.thorough else (4000, 40)
-    cases, lines, spans = explore('c18', n, maxlen, load_corpus())
+    cases, lines, spans = explore('c18', n, maxlen, load_corpus(), budget=(840.0 if ctx.thorough else 75.0))
     if build.driver_ok:
         fill_model(cases, lines, spans)
     for i, c in enumerate(cases):
